@@ -2,22 +2,22 @@
 ------------------------------ MODULE Toks ------------------------------
 (* Token constructors shared by the generator machines. *)
 EXTENDS Lexer
-t(k, cp) == Tok(k, cp, FALSE)
-Dot == t("dot", <<46>>)      LB == t("lbracket", <<91>>)   RB == t("rbracket", <<93>>)
-Star == t("star", <<42>>)    Colon == t("colon", <<58>>)   Comma == t("comma", <<44>>)
-Flat == t("flatten", <<91,93>>) Filt == t("filter", <<91,63>>) LBr == t("lbrace", <<123>>)
-RBr == t("rbrace", <<125>>)   LP == t("lparen", <<40>>)     RP == t("rparen", <<41>>)
-PipeT == t("pipe", <<124>>)   OrT == t("or", <<124,124>>)       AndT == t("and", <<38,38>>)
-NotT == t("not", <<33>>)     EqT == t("eq", <<61,61>>)       NeT == t("ne", <<33,61>>)
-LtT == t("lt", <<60>>)       CurT == t("cur", <<64>>)      RootT == t("root", <<36>>)
-Id(s) == t("id", s)        IntT(s) == t("int", s)      Json(s) == t("json", s)
-Raw(s) == t("raw", s)
+Tk(k, cp) == Tok(k, cp, FALSE)
+Dot == Tk("dot", <<46>>)      LB == Tk("lbracket", <<91>>)   RB == Tk("rbracket", <<93>>)
+Star == Tk("star", <<42>>)    Colon == Tk("colon", <<58>>)   Comma == Tk("comma", <<44>>)
+Flat == Tk("flatten", <<91,93>>) Filt == Tk("filter", <<91,63>>) LBr == Tk("lbrace", <<123>>)
+RBr == Tk("rbrace", <<125>>)   LP == Tk("lparen", <<40>>)     RP == Tk("rparen", <<41>>)
+PipeT == Tk("pipe", <<124>>)   OrT == Tk("or", <<124,124>>)       AndT == Tk("and", <<38,38>>)
+NotT == Tk("not", <<33>>)     EqT == Tk("eq", <<61,61>>)       NeT == Tk("ne", <<33,61>>)
+LtT == Tk("lt", <<60>>)       CurT == Tk("cur", <<64>>)      RootT == Tk("root", <<36>>)
+Id(s) == Tk("id", s)        IntT(s) == Tk("int", s)      Json(s) == Tk("json", s)
+Raw(s) == Tk("raw", s)
 
-GtT == t("gt", <<62>>)       LeT == t("le", <<60,61>>)       GeT == t("ge", <<62,61>>)
-PlusT == t("plus", <<43>>)   MinusT == t("minus", <<45>>)  MultT == t("mult", <<215>>)
-DivT == t("div", <<47>>)     DivUT == t("div", <<247>>) IDivT == t("idiv", <<47,47>>)
-ModT == t("mod", <<37>>)     MinusUT == t("minus", <<8722>>)  AmpT == t("amp", <<38>>)
-AssignT == t("assign", <<61>>)   VarT(s) == t("var", s)   QId(s) == t("qid", s)
+GtT == Tk("gt", <<62>>)       LeT == Tk("le", <<60,61>>)       GeT == Tk("ge", <<62,61>>)
+PlusT == Tk("plus", <<43>>)   MinusT == Tk("minus", <<45>>)  MultT == Tk("mult", <<215>>)
+DivT == Tk("div", <<47>>)     DivUT == Tk("div", <<247>>) IDivT == Tk("idiv", <<47,47>>)
+ModT == Tk("mod", <<37>>)     MinusUT == Tk("minus", <<8722>>)  AmpT == Tk("amp", <<38>>)
+AssignT == Tk("assign", <<61>>)   VarT(s) == Tk("var", s)   QId(s) == Tk("qid", s)
 LetT == Tok("id", <<108,101,116>>, FALSE)   InT == Tok("id", <<105,110>>, TRUE)
 Named(ok, name) == ok \/ ~PrintT("MODELFAIL " \o name)
 =============================================================================
